@@ -79,6 +79,9 @@ class Model(MemPoolAPI):
         if self.rnd.random() < 0.1:
             ins.append((bytes(32), 0xffffffff))          # generation-like input
         outs = [(self.rnd.randrange(0, 5000), self.rnd.choice(self.scripts)) for _ in range(self.rnd.randrange(1, 4))]
+        if self.rnd.random() < 0.25:
+            # a data-carrier output that is NOT the last one: output positions of the later outputs must not shift
+            outs.insert(self.rnd.randrange(0, len(outs)), (0, self.rnd.choice([b'\x00\x6a\x04data', b'\x6a\x04data'])))
         raw = ser(ins, outs)
         self.pool[dsha(raw)] = (ins, outs, raw)
         self.spent.update(op for op in ins if op[0] != bytes(32))
